@@ -17,6 +17,9 @@ def run(tier):
     n = 140 if tier == 'quick' else 3000
     jobs = ec.random_jobs(rnd, n, label='sub', gen_kw=dict(p_sub=0.5, p_items=0.3, p_cmd=0.03))
     for k, j in enumerate(jobs):
+        if k % 3 == 0:
+            j['prog'].flags['ns'] = 'ns1'
+            j['prog'].flags['ns_decoy'] = (k % 2 == 0)
         if k % 6 == 1:
             j['ops'] = [dict(at=rnd.randint(3, 25), op='stop', state='CANCELLED')]
         if k % 6 == 4:
